@@ -31,7 +31,8 @@ RULE = (
     "in, effects, Map over a cached dataset, with_options derivatives); actions = every dictionary of the product "
     "alphabet x {exact, +junk, junk changed, top-level order reversed} x entry; BFS with canonical-state dedup to depth 2 "
     "(3 for small alphabets; thorough 3/4); plus all histories of length <= 4 (5 thorough) mixing evaluations with "
-    "add_effects / disable_effects / enable_effects / set_cache on a live dataset, replayed on fresh objects; a transition is non-trivial when at least one cached body is skipped "
+    "add_effects / disable_effects / enable_effects / set_cache on a live dataset, (also on a with_options derivative) replayed on fresh objects; plus a router dataset whose implementation is "
+    "added by the overload decorator / register under a memory-cached and a nocache parent; a transition is non-trivial when at least one cached body is skipped "
     "because of a cache hit; distinct_nontrivial counts systems with such transitions"
 )
 ASSUMPTIONS = [
